@@ -1,0 +1,32 @@
+//go:build verif
+
+package merkle
+
+// Contracts for gocv (contract-based deductive verification, /verif).
+
+// The domain-separation tags are initialised once from the tag constants.
+//@ global len(leafOpen) == 6 && len(leafClose) == 7 && len(nodeOpen) == 12 && len(nodeMid) == 14 && len(nodeClose) == 15
+
+//@ extern func crypto/sha256.Sum256
+
+// SHA256("<leaf>" || data || "</leaf>"): the hash input is exactly that concatenation.
+//@ func merkleLeafHash
+//@   props C19
+//@   arith int
+//@   requires len(data) < 1<<40
+//@   callsite Sum256@*: preimage_len: len($0) == len(leafOpen) + len(data) + len(leafClose)
+//@   callsite Sum256@*: preimage_open: forall j int :: 0 <= j && j < len(leafOpen) ==> $0[j] == leafOpen[j]
+//@   callsite Sum256@*: preimage_data: forall j int :: 0 <= j && j < len(data) ==> $0[len(leafOpen) + j] == data[j]
+//@   callsite Sum256@*: preimage_close: forall j int :: 0 <= j && j < len(leafClose) ==> $0[len(leafOpen) + len(data) + j] == leafClose[j]
+
+// SHA256("<node><left>" || left || "</left><right>" || right || "</right></node>")
+//@ func merkleNodeHash
+//@   props C19
+//@   arith int
+//@   requires left != nil && right != nil
+//@   callsite Sum256@*: preimage_len: len($0) == 12 + 32 + 14 + 32 + 15
+//@   callsite Sum256@*: preimage_open: forall j int :: 0 <= j && j < 12 ==> $0[j] == nodeOpen[j]
+//@   callsite Sum256@*: preimage_left: forall j int :: 0 <= j && j < 32 ==> $0[12 + j] == left[j]
+//@   callsite Sum256@*: preimage_mid: forall j int :: 0 <= j && j < 14 ==> $0[44 + j] == nodeMid[j]
+//@   callsite Sum256@*: preimage_right: forall j int :: 0 <= j && j < 32 ==> $0[58 + j] == right[j]
+//@   callsite Sum256@*: preimage_close: forall j int :: 0 <= j && j < 15 ==> $0[90 + j] == nodeClose[j]
